@@ -10,7 +10,7 @@ CONSTANTS
   MaxSlow = 0
   PeerModes <- ModesSL
   DenyReplies <- DenyOne
-  AckTails <- TailsRssi
-  Bug = "none"
+  AckTails <- TailsAll
+  Bug = "stats_crash"
 PROPERTY EventuallyDelivered
 CHECK_DEADLOCK FALSE
